@@ -101,6 +101,8 @@ def cmd_run(a):
             cmd = [os.path.join(VERIF, "check"), c, "--tier", a.tier]
             if a.budget:
                 cmd += ["--budget", str(a.budget)]
+            if a.slice:
+                cmd += ["--slice", a.slice]
             r = sh(cmd, env=e)
             viol = [l for l in r.stdout.splitlines() if l.startswith("VIOLATION")]
             sub = [l.strip() for l in r.stdout.splitlines() if l.strip().startswith("subcheck=")]
@@ -171,7 +173,7 @@ def main():
     sub = ap.add_subparsers(dest="cmd", required=True)
     v = sub.add_parser("verify"); v.add_argument("dir")
     r = sub.add_parser("run"); r.add_argument("dir"); r.add_argument("--checks"); r.add_argument("--tier", default="quick")
-    r.add_argument("--budget", type=float); r.add_argument("--record", action="store_true")
+    r.add_argument("--budget", type=float); r.add_argument("--record", action="store_true"); r.add_argument("--slice")
     ad = sub.add_parser("adopt"); ad.add_argument("dir"); ad.add_argument("id"); ad.add_argument("--property", required=True)
     ad.add_argument("--summary"); ad.add_argument("--needs")
     sub.add_parser("matrix")
